@@ -1599,6 +1599,11 @@ func ruleSelCollect(r *Run) {
 		}
 	})
 	if rec == nil {
+		// the same walk written as a loop: a node variable that starts at the receiver and moves to
+		// path[first component of the rest of the name], the rules of the current node appended on every round
+		if p.selCollectIterative(r, fn, rulesF, pathF) {
+			return
+		}
 		r.bad("(*ruleSelector).getRules/descends", fn.Pos(), "getRules does not descend into the child selector: only top-level rules are ever found")
 		return
 	}
@@ -1653,4 +1658,135 @@ func ruleSelCollect(r *Run) {
 		}
 	}
 	r.check(descOK, "(*ruleSelector).getRules/descends", rec.Pos(), "descends into path[first component] with the remaining components", "the recursion does not descend by strings.Cut(name, \".\") into path[first component]")
+}
+
+// selCollectIterative judges getRules written as a loop; it reports its obligations itself and returns false if the
+// function has no such loop.
+func (p *Program) selCollectIterative(r *Run, fn *ssa.Function, rulesF, pathF *types.Var) bool {
+	recv := fn.Params[0]
+	var node *ssa.Phi
+	for _, b := range fn.Blocks {
+		for _, in := range b.Instrs {
+			phi, ok := in.(*ssa.Phi)
+			if !ok {
+				break
+			}
+			if !types.Identical(phi.Type(), recv.Type()) {
+				continue
+			}
+			fromRecv, fromChild := false, false
+			for i, e := range phi.Edges {
+				if e == ssa.Value(recv) {
+					fromRecv = true
+				}
+				if b.Dominates(b.Preds[i]) {
+					// the value flowing back: path[tag] of this node, tag = first component of the name variable
+					for _, o := range p.origins(e, originOpts{local: true}) {
+						lk, ok := o.(*ssa.Lookup)
+						if !ok {
+							continue
+						}
+						okMap := false
+						for _, mo := range p.origins(lk.X, originOpts{local: true}) {
+							if u, ok := mo.(*ssa.UnOp); ok && loadsField(u, pathF) {
+								if fa, ok := u.X.(*ssa.FieldAddr); ok && fa.X == ssa.Value(phi) {
+									okMap = true
+								}
+							}
+						}
+						if ex, ok := lk.Index.(*ssa.Extract); ok && ex.Index == 0 && okMap {
+							if c, ok := ex.Tuple.(*ssa.Call); ok && calleeName(c) == "strings.Cut" {
+								if sep, ok := constString(c.Call.Args[1]); ok && sep == "." {
+									// the name variable continues with the rest of the same Cut
+									if np, ok := c.Call.Args[0].(*ssa.Phi); ok {
+										for _, ne := range np.Edges {
+											if ex2, ok := ne.(*ssa.Extract); ok && ex2.Tuple == ssa.Value(c) && ex2.Index == 1 {
+												fromChild = true
+											}
+										}
+									}
+								}
+							}
+						}
+					}
+				}
+			}
+			if fromRecv && fromChild {
+				node = phi
+			}
+		}
+	}
+	if node == nil {
+		return false
+	}
+	r.ok("(*ruleSelector).getRules/descends", node.Pos(), "descends into path[first component] with the remaining components (loop form)")
+	// every round appends the current node's rules before it returns or moves on
+	isOwnAppend := func(in ssa.Instruction) bool {
+		c, ok := in.(*ssa.Call)
+		if !ok {
+			return false
+		}
+		b, ok := c.Call.Value.(*ssa.Builtin)
+		if !ok || b.Name() != "append" {
+			return false
+		}
+		for _, el := range p.flattenAppend(c, 0) {
+			if u, ok := el.(*ssa.UnOp); ok && loadsField(u, rulesF) {
+				if fa, ok := u.X.(*ssa.FieldAddr); ok && fa.X == ssa.Value(node) {
+					return true
+				}
+			}
+		}
+		return false
+	}
+	head := node.Block()
+	first := head.Instrs[0]
+	for _, in := range head.Instrs {
+		if _, isPhi := in.(*ssa.Phi); !isPhi {
+			break
+		}
+		first = in
+	}
+	leaves := func(x ssa.Instruction) bool {
+		if isReturn(x) {
+			return true
+		}
+		// back at the head of the loop
+		return x.Block() == head && x == head.Instrs[0] && false
+	}
+	w, _ := (pathQuery{fn: fn, start: first, target: leaves, barrier: isOwnAppend}).find()
+	// a way round the loop without the append
+	round := false
+	for _, pr := range head.Preds {
+		if !head.Dominates(pr) {
+			continue
+		}
+		last := pr.Instrs[len(pr.Instrs)-1]
+		if w2, _ := (pathQuery{fn: fn, start: first, target: func(x ssa.Instruction) bool { return x == last }, barrier: isOwnAppend}).find(); w2 != nil {
+			round = true
+		}
+	}
+	// the returned value is the accumulated list
+	accOK := true
+	eachInstr(fn, func(in ssa.Instruction) {
+		if rt, ok := in.(*ssa.Return); ok {
+			has := false
+			for _, o := range p.origins(rt.Results[0], originOpts{local: true, throughAppend: true}) {
+				if c, ok := o.(*ssa.Call); ok && isOwnAppend(c) {
+					has = true
+				}
+			}
+			for _, el := range p.flattenAppend(rt.Results[0], 0) {
+				if u, ok := el.(*ssa.UnOp); ok && loadsField(u, rulesF) {
+					has = true
+				}
+			}
+			if !has {
+				accOK = false
+			}
+		}
+	})
+	r.check(w == nil && !round && accOK, "(*ruleSelector).getRules/collects-every-level", node.Pos(), "every round appends the rules of the current node before it returns or descends, and the accumulated list is returned",
+		"a round of getRules' loop returns or descends without appending the current node's own rules (or the returned list is not the accumulated one): a wildcard selector at a shallower depth stops covering a method as soon as a deeper selector exists")
+	return true
 }
